@@ -12,6 +12,7 @@ def run(ck):
     image.r5_alpha_count(ck, P)
     alloc.r9_failure_is_atomic(ck, P, 'C14-R12')     # a refused setter leaves inputs and derived flags in agreement only if it stored nothing
     image.r13_boolean_index_arguments_are_truth_values(ck, P)
+    image.r14_bits_setters_test_the_type(ck, P)
     image.r_validated_before_use(ck, P, 'C14-R7')
     geometry.r1_clip_sources(ck, P)            # C03-R1: a clip that was reset must not clip (have_clip_region is the current property, the rectangles are stale)
     region.r5_4_success_writes_result(ck, P)   # C05-R4: a clip setter that reports success has replaced the clip
